@@ -152,6 +152,7 @@ def run(ctx, model_ok):
     comps = rc.HOSTILE + rc.EXTRA_COMPONENTS
     lists = [list(s) for k in (0, 1, 2, 3) for s in itertools.product(rc.HOSTILE[:5] + ["..x"], repeat=k)][:400]
     rc.check_parts_tie(ctx, model_ok, comps, lists)
+    rc.parts_tie(ctx, model_ok)
     rc.extract_tie(ctx, model_ok)
     rc.match_v2_tie(ctx, model_ok)
     e2e(ctx)
